@@ -1,8 +1,10 @@
-(* Counterexamples to the full (unconditional) statements of C04, computed with the SAME generic
-   model instantiated at exact rational arithmetic (QArith): every operation the ABF model uses
-   (+ - * / floor < ==) is exact there, and the inputs are small rationals, so each witness is also
-   a counterexample for the real-number instance (and, the numbers being dyadic, for IEEE doubles:
-   check.py replays each of them on the C++). *)
+(* Concrete runs of the SAME generic model instantiated at exact rational arithmetic (QArith): every
+   operation the ABF model uses (+ - * / floor < ==) is exact there, so the values computed here by
+   vm_compute are the values of the real-number instance on these inputs (and, the numbers being dyadic,
+   of IEEE doubles: check.py replays the same scenarios on the C++ at every run).
+   E1, E3, E4 are the minimal inputs on which the tree BEFORE the fix commits of branch fix-C04 violated
+   C04 (they were the witnesses of `_refuted` theorems in the first version of this slice); they now show
+   that the premises of the theorems are met by runs in which samples are really taken. *)
 From Coq Require Import ZArith QArith Qround List Bool.
 From CV Require Import Base.Num C04.ABFModel.
 Import ListNotations.
@@ -15,32 +17,80 @@ Definition Qops : NumOps Q :=
            (fun x _ => x) (fun x _ => x)                                                     (* atan2, pow: unused *)
            inject_Z Qfloor Qltb Qle_bool Qeq_bool.
 
-Definition cfg1 (lower : Q) (periodic : bool) (apply : bool) (same : bool) (sub : bool) : @abf_cfg Q :=
-  @mkCfg Q 1%nat [lower] [1] [2%Z] [periodic] 2 1 apply true false [0] false same [sub].
+(* one variable, bins [lower, lower+1) and [lower+1, lower+2), fullSamples 2, minSamples 1, updateBias on *)
+Definition cfg1 (lower : Q) (periodic same sub hidej other : bool) : @abf_cfg Q :=
+  @mkCfg Q 1%nat [lower] [1] [2%Z] [periodic] 2 1 true false [0] false same [sub] hidej [other] false (fun _ => 1).
+(* [inp] with applyBias on, [inp0] with applyBias off at that step *)
+Definition inpa (a : bool) (x e o j : Q) (boundary : bool) : @abf_in Q := @mkIn Q [x] [e] [o] [j] boundary a.
+Definition inp := inpa true.
+Definition inp0 := inpa false.
 
-(* W1: subtractAppliedForce, lagged forces.  Step 0: value 1/2, engine force -1, a restraint applies +1:
-   the measured total force is exactly 0 and colvar.cpp skips `ft -= f_old`: the sample recorded at
-   step 1 for bin [0] is 0 instead of (-1 + 1) - 1 = -1.  Step 1 (engine force 2) gives the sample 2.
-   Stored sum -(0 + 2) = -2; minus the attributed samples is -(-1 + 2) = -1.
-   (Same scenario as witness_zero_total() in props/C04/check.py.) *)
-Definition w1_cfg := cfg1 0 false false false true.
-Definition w1_hist : list (@abf_in Q) :=
-  [@mkIn Q [1#2] [-(1)] [1] false; @mkIn Q [1#2] [2#1] [1] false; @mkIn Q [1#2] [2#1] [1] false].
+(* E1: subtractAppliedForce, lagged forces.  Step 0: value 1/2, engine force -1, a restraint applies +1:
+   the measured total force is exactly 0.  The sample recorded at step 1 for bin [0] is (-1 + 1) - 1 = -1;
+   step 1 (engine force 2) gives the sample 2: stored sum -(-1 + 2) = -1.
+   (Before the fix `if (ft.norm2() > 0.0) ft -= f_old` recorded 0 for the first one: stored sum -2.) *)
+Definition e1_cfg := cfg1 0 false false true false true.
+Definition e1_hist := [inp0 (1#2) (-(1)) 1 0 false; inp0 (1#2) (2#1) 1 0 false; inp0 (1#2) (2#1) 1 0 false].
 
-(* W2: lagged forces, value exactly 0 at step 0 while a restraint applies +1 and the engine force is 1:
-   colvar::communicate_forces drops the applied force (integer_power(0,0) = 0), the engine measures 1,
-   the sample recorded for bin [1] is 1; the attributed sample is (1 + 1) - 0 = 2. *)
-Definition w2_cfg := cfg1 (-(1)) false false false false.
-Definition w2_hist : list (@abf_in Q) := [@mkIn Q [0] [1] [1] false; @mkIn Q [1#2] [0] [1#2] false].
+(* E2: the ABF force itself cancels the engine force.  minSamples 0 / fullSamples 1, applyBias on,
+   subtractAppliedForce, lagged.  Steps 0,1: engine force 2 -> at step 2 the bin holds one sample 2 and the
+   ABF force is -2; the engine force of step 2 is +2: measured total force exactly 0, sample 0 - (-2) = 2. *)
+Definition e2_cfg : @abf_cfg Q := @mkCfg Q 1%nat [0] [1] [2%Z] [false] 1 0 true false [0] false false [true] false [false] false (fun _ => 1).
+Definition e2_hist := [inp (1#2) (2#1) 0 0 false; inp (1#2) (2#1) 0 0 false; inp (1#2) (2#1) 0 0 false; inp (1#2) (2#1) 0 0 false].
 
-(* W3: one periodic variable, 2 bins, minSamples 1, fullSamples 2, same-step forces; one sample of
-   force 2 in bin [0].  The force that calc_biasing_force gives is 1 in bin [0] (below the ramp) and 1
-   in bin [1] (no sample at all): not zero-mean, and non-zero where the documented ramp is zero. *)
-Definition w3_cfg := cfg1 0 true true true false.
-Definition w3_hist : list (@abf_in Q) := [@mkIn Q [1#2] [0] [0] false; @mkIn Q [1#2] [2#1] [0] false].
-Definition w3_force (b : Z) : Q :=
-  let s := fst (abf_run Qops w3_cfg w3_hist) in
-  vget Qops (calc_biasing_force Qops w3_cfg (s_cnt s) (s_sum s) [b]) 0.
+(* E3: one periodic variable, 2 bins, minSamples 1, fullSamples 2, same-step forces; one sample of force 2
+   in bin [0] (count = minSamples: ramp 0, the other bin is empty): no force in either bin.
+   (Before the fix the average of the unramped means was subtracted: +1 in both bins.) *)
+Definition e3_cfg := cfg1 0 true true false false false.
+Definition e3_hist := [inp (1#2) 0 0 0 false; inp (1#2) (2#1) 0 0 false].
+Definition force_in (c : @abf_cfg Q) (h : list (@abf_in Q)) (b : Z) : Q :=
+  let s := fst (abf_run Qops c h) in
+  vget Qops (calc_biasing_force Qops c (s_cnt s) (s_sum s) [b]) 0.
+
+(* E3b: the same grid during the ramp, fullSamples 4, minSamples 0: 4 samples (2, 2, 4, 4) in bin [0]
+   (full: estimate -3), 2 samples of force 1 in bin [1] (ramp 1/2: ramped estimate -1/2); the average of the
+   ramped estimates is -7/4: forces -5/4 and +5/4, non-zero and opposite *)
+Definition e3b_cfg : @abf_cfg Q := @mkCfg Q 1%nat [0] [1] [2%Z] [true] 4 0 true false [0] false true [false] false [false] false (fun _ => 1).
+Definition e3b_hist := [inp (1#2) 0 0 0 false; inp (1#2) (2#1) 0 0 false; inp (1#2) (2#1) 0 0 false; inp (1#2) (4#1) 0 0 false;
+                        inp (1#2) (4#1) 0 0 false; inp (3#2) 1 0 0 false; inp (3#2) 1 0 0 false].
+
+(* E4: hideJacobian with same-step total forces and a variable with Jacobian force 3 (distance: 2kT/r):
+   engine force 1: the sample is 1 (the Jacobian term is hidden), and the variable receives the ABF
+   force minus the compensation fj.
+   (Before the fix `ft += fj` was also done here: sample 4, Jacobian compensated twice.) *)
+Definition e4_cfg := cfg1 0 false true false true false.
+Definition e4_hist := [inp (1#2) 1 0 (3#1) false; inp (1#2) 1 0 (3#1) false; inp (1#2) 1 0 (3#1) false].
+(* and the same history in the lagged convention *)
+Definition e4l_cfg := cfg1 0 false false false true false.
+Definition e4l_hist := e4_hist ++ [inp (1#2) 1 0 (3#1) false].
+
+(* E6: scaledBiasingForce with the factor 1/2 in every bin, lagged forces, minSamples 0, fullSamples 1,
+   engine force 2 at every step: the ABF force is -2, the variable receives -1, the measured force is 1 and
+   every sample is 1 - (-1) = 2.  (Before the fix the unscaled -2 was subtracted: samples 2, 3, 13/4.) *)
+Definition e6_cfg : @abf_cfg Q :=
+  @mkCfg Q 1%nat [0] [1] [2%Z] [false] 1 0 true false [0] false false [false] false [false] true (fun _ => 1#2).
+Definition e6_hist := [inp (1#2) (2#1) 0 0 false; inp (1#2) (2#1) 0 0 false; inp (1#2) (2#1) 0 0 false; inp (1#2) (2#1) 0 0 false].
+
+(* E5: hideJacobian, lagged forces, applyBias off and no other bias on the variable (nothing is handed to the
+   atoms), Jacobian force 3, engine force 1: the samples are 1.
+   (Before the fix colvar::f = -fj was computed and reported but never applied, and fj was still added to the
+   measured force: samples 4.) *)
+Definition e5_cfg := cfg1 0 false false false true false.
+Definition e5_hist := [inp0 (1#2) 1 0 (3#1) false; inp0 (1#2) 1 0 (3#1) false; inp0 (1#2) 1 0 (3#1) false].
+
+(* E7: applyBias switched off and on again at run time (cv bias <name> set apply_force 0|1), lagged forces,
+   minSamples 0, fullSamples 1, engine force 2 at every step: every sample is 2 whatever was applied *)
+Definition e7_cfg : @abf_cfg Q :=
+  @mkCfg Q 1%nat [0] [1] [2%Z] [false] 1 0 true false [0] false false [false] false [false] false (fun _ => 1).
+Definition e7_hist := [inp (1#2) (2#1) 0 0 false; inp (1#2) (2#1) 0 0 false; inp0 (1#2) (2#1) 0 0 false;
+                       inp0 (1#2) (2#1) 0 0 false; inp (1#2) (2#1) 0 0 false; inp (1#2) (2#1) 0 0 false].
+
+(* W7 (known, sample:hideJacobian-applyBias-switched): hideJacobian, lagged forces, Jacobian force 3, engine force
+   1, applyBias on at step 0 and switched off before step 1: the force measured for step 0 contains the
+   compensation -3, but collect_cvc_total_forces looks at f_cv_apply_force at step 1 and does not add fj:
+   the sample of step 0 is recorded as -2 instead of 1. *)
+Definition w7_cfg := cfg1 0 false false false true false.
+Definition w7_hist := [inp (1#2) 1 0 (3#1) false; inp0 (1#2) 1 0 (3#1) false; inp0 (1#2) 1 0 (3#1) false].
 
 Definition stored_sum (c : @abf_cfg Q) (h : list (@abf_in Q)) (b : idx) (k : nat) : Q :=
   vget Qops (s_sum (fst (abf_run Qops c h)) b) k.
@@ -49,21 +99,60 @@ Definition spec_sum (c : @abf_cfg Q) (h : list (@abf_in Q)) (b : idx) (k : nat) 
 Definition stored_cnt (c : @abf_cfg Q) (h : list (@abf_in Q)) (b : idx) : Z := s_cnt (fst (abf_run Qops c h)) b.
 Definition spec_cnt (c : @abf_cfg Q) (h : list (@abf_in Q)) (b : idx) : Z :=
   cnt_of b (attributed Qops c (trace_of Qops c h)).
+Definition last_applied (c : @abf_cfg Q) (h : list (@abf_in Q)) : Q :=
+  vget Qops (o_f (last (snd (abf_run Qops c h)) (mkOut [] [] [] [] 0%Z false []))) 0.
 
-Lemma w1_refutes :
-  stored_cnt w1_cfg w1_hist [0%Z] = 2%Z /\ spec_cnt w1_cfg w1_hist [0%Z] = 2%Z /\
-  Qeq_bool (stored_sum w1_cfg w1_hist [0%Z] 0) (-(2#1)) = true /\
-  Qeq_bool (spec_sum w1_cfg w1_hist [0%Z] 0) (-(1)) = true.
+Lemma e1_values :
+  stored_cnt e1_cfg e1_hist [0%Z] = 2%Z /\ spec_cnt e1_cfg e1_hist [0%Z] = 2%Z /\
+  Qeq_bool (stored_sum e1_cfg e1_hist [0%Z] 0) (-(1)) = true /\
+  Qeq_bool (spec_sum e1_cfg e1_hist [0%Z] 0) (-(1)) = true.
 Proof. vm_compute. repeat split; reflexivity. Qed.
 
-Lemma w2_refutes :
-  stored_cnt w2_cfg w2_hist [1%Z] = 1%Z /\ spec_cnt w2_cfg w2_hist [1%Z] = 1%Z /\
-  Qeq_bool (stored_sum w2_cfg w2_hist [1%Z] 0) (-(1)) = true /\
-  Qeq_bool (spec_sum w2_cfg w2_hist [1%Z] 0) (-(2#1)) = true.
+Lemma e2_values :
+  stored_cnt e2_cfg e2_hist [0%Z] = 3%Z /\ spec_cnt e2_cfg e2_hist [0%Z] = 3%Z /\
+  Qeq_bool (stored_sum e2_cfg e2_hist [0%Z] 0) (-(6#1)) = true /\
+  Qeq_bool (spec_sum e2_cfg e2_hist [0%Z] 0) (-(6#1)) = true.
 Proof. vm_compute. repeat split; reflexivity. Qed.
 
-Lemma w3_refutes :
-  stored_cnt w3_cfg w3_hist [0%Z] = 1%Z /\ stored_cnt w3_cfg w3_hist [1%Z] = 0%Z /\
-  Qeq_bool (w3_force 0) 1 = true /\ Qeq_bool (w3_force 1) 1 = true /\
-  Qeq_bool (w3_force 0 + w3_force 1) 0 = false.
+Lemma e3_values :
+  stored_cnt e3_cfg e3_hist [0%Z] = 1%Z /\ stored_cnt e3_cfg e3_hist [1%Z] = 0%Z /\
+  Qeq_bool (force_in e3_cfg e3_hist 0) 0 = true /\ Qeq_bool (force_in e3_cfg e3_hist 1) 0 = true.
+Proof. vm_compute. repeat split; reflexivity. Qed.
+
+Lemma e3b_values :
+  stored_cnt e3b_cfg e3b_hist [0%Z] = 4%Z /\ stored_cnt e3b_cfg e3b_hist [1%Z] = 2%Z /\
+  Qeq_bool (force_in e3b_cfg e3b_hist 0) (-(5#4)) = true /\ Qeq_bool (force_in e3b_cfg e3b_hist 1) (5#4) = true.
+Proof. vm_compute. repeat split; reflexivity. Qed.
+
+Lemma e4_values :
+  stored_cnt e4_cfg e4_hist [0%Z] = 2%Z /\ Qeq_bool (stored_sum e4_cfg e4_hist [0%Z] 0) (-(2#1)) = true /\
+  Qeq_bool (spec_sum e4_cfg e4_hist [0%Z] 0) (-(2#1)) = true /\
+  Qeq_bool (last_applied e4_cfg e4_hist) (-(4#1)) = true /\
+  stored_cnt e4l_cfg e4l_hist [0%Z] = 3%Z /\ Qeq_bool (stored_sum e4l_cfg e4l_hist [0%Z] 0) (-(3#1)) = true.
+Proof. vm_compute. repeat split; reflexivity. Qed.
+
+Lemma e5_values :
+  stored_cnt e5_cfg e5_hist [0%Z] = 2%Z /\ spec_cnt e5_cfg e5_hist [0%Z] = 2%Z /\
+  Qeq_bool (stored_sum e5_cfg e5_hist [0%Z] 0) (-(2#1)) = true /\
+  Qeq_bool (spec_sum e5_cfg e5_hist [0%Z] 0) (-(2#1)) = true /\
+  Qeq_bool (last_applied e5_cfg e5_hist) 0 = true.
+Proof. vm_compute. repeat split; reflexivity. Qed.
+
+Lemma e7_values :
+  stored_cnt e7_cfg e7_hist [0%Z] = 5%Z /\ spec_cnt e7_cfg e7_hist [0%Z] = 5%Z /\
+  Qeq_bool (stored_sum e7_cfg e7_hist [0%Z] 0) (-(10#1)) = true /\
+  Qeq_bool (spec_sum e7_cfg e7_hist [0%Z] 0) (-(10#1)) = true.
+Proof. vm_compute. repeat split; reflexivity. Qed.
+
+Lemma w7_refutes :
+  stored_cnt w7_cfg w7_hist [0%Z] = 2%Z /\ spec_cnt w7_cfg w7_hist [0%Z] = 2%Z /\
+  Qeq_bool (stored_sum w7_cfg w7_hist [0%Z] 0) 1 = true /\
+  Qeq_bool (spec_sum w7_cfg w7_hist [0%Z] 0) (-(2#1)) = true.
+Proof. vm_compute. repeat split; reflexivity. Qed.
+
+Lemma e6_values :
+  stored_cnt e6_cfg e6_hist [0%Z] = 3%Z /\ spec_cnt e6_cfg e6_hist [0%Z] = 3%Z /\
+  Qeq_bool (stored_sum e6_cfg e6_hist [0%Z] 0) (-(6#1)) = true /\
+  Qeq_bool (spec_sum e6_cfg e6_hist [0%Z] 0) (-(6#1)) = true /\
+  Qeq_bool (last_applied e6_cfg e6_hist) (-(1)) = true.
 Proof. vm_compute. repeat split; reflexivity. Qed.
